@@ -4,11 +4,12 @@
    one decode operation (reads in pieces | check | extract) and each presentation at most one
    extract; the reader may be freed at any point (abandoning the archive) and at most one
    allocation failure may be injected anywhere. *)
-EXTENDS Reader, TLC
+EXTENDS Reader, TLC, Json
 CONSTANTS MAXN, FAULTS
 
-VARIABLES faults, nn
-vars == <<arc, policy, b, r, dirStack, deferred, refs, done, live, mis, faults, nn>>
+VARIABLES faults, nn, hist        \* hist: the calls made so far (generator output; hidden by VIEW)
+vars == <<arc, policy, b, r, dirStack, deferred, refs, done, live, mis, faults, nn, hist>>
+MCView == <<arc, policy, b, r, dirStack, deferred, refs, done, live, mis, faults, nn>>
 
 F(id, kind, dirp, plen, packed, avail, sup, data, good) ==
   [id |-> id, kind |-> kind, dirp |-> dirp, plen |-> plen, packed |-> packed, avail |-> avail,
@@ -32,7 +33,7 @@ Arcs == UNION {[1..n -> Shapes] : n \in 0..MAXN}
 Init == /\ \E a \in Arcs, p \in Policies :
              /\ \A i \in 1..Len(a) : (a[i].avail < a[i].packed) => i = Len(a)
              /\ RInit(a, p)
-        /\ faults = 0 /\ nn = 0
+        /\ faults = 0 /\ nn = 0 /\ hist = <<>>
 
 OkSet == IF faults < FAULTS THEN {TRUE, FALSE} ELSE {TRUE}
 Fault(ok) == faults' = IF ok THEN faults ELSE faults + 1
@@ -49,19 +50,23 @@ Cs == IF b.idx # 0 THEN {0, b.rem} \cup (IF b.rem > 1 THEN {1} ELSE {}) ELSE {0}
 
 Next ==
   \/ \E ok \in OkSet : NextFileWith(ok) /\ Fault(IF r.ctype \in {"START", "NORMAL"} THEN ok ELSE TRUE)
-        /\ nn' = IF r'.ctype = "NORMAL" THEN nn + 1 ELSE nn
+        /\ nn' = (IF r'.ctype = "NORMAL" THEN nn + 1 ELSE nn)
+        /\ hist' = Append(hist, "N")
   \/ \E k \in {1, 8}, c \in Cs, ok \in OkSet, e \in Es :
         MayRead /\ ReadWith(k, c, ok, e) /\ Fault(IF Decodable /\ ~r.dec THEN ok ELSE TRUE) /\ UNCHANGED nn
+        /\ hist' = Append(hist, (IF k = 1 THEN "R1" ELSE "R8"))
   \/ \E c \in Cs, ok \in OkSet, e \in Es :
-        MayCheck /\ CheckWith(c, ok, e) /\ Fault(IF Decodable THEN ok ELSE TRUE) /\ UNCHANGED nn
+        MayCheck /\ CheckWith(c, ok, e) /\ Fault(IF Decodable THEN ok ELSE TRUE) /\ UNCHANGED nn /\ hist' = Append(hist, "C")
   \/ \E fs \in {"ok", "fail", "made", "exists"}, c \in Cs, ok \in OkSet, e \in Es :
         /\ MayExtract
         /\ IsDirEntry = (fs \in {"made", "exists"})
         /\ ExtractWith(fs, c, ok, e) /\ Fault(IF r.ctype \in {"START", "EOF", "FAKE"} \/ IsDirEntry THEN TRUE ELSE ok)
-        /\ UNCHANGED nn
-  \/ Free /\ UNCHANGED <<faults, nn>>
+        /\ UNCHANGED nn /\ hist' = Append(hist, "X")
+  \/ Free /\ UNCHANGED <<faults, nn>> /\ hist' = Append(hist, "Q")
 
 Spec == Init /\ [][Next]_vars
+\* generator: when the reader is freed, print the archive (shape ids), the policy and the calls
+Emit == ("reader" \notin live) => PrintT(<<"SCRIPT", ToJson([arc |-> [i \in 1..Len(arc) |-> arc[i].id], policy |-> policy, ops |-> hist])>>)
 
 \* --- C15: the sequence of real headers is the archive's, whatever else was done -------------
 \* the NORMAL entries are handed out in archive order without gaps (until eof is latched by a
